@@ -367,6 +367,12 @@ func genHistory(t *Tape, sc *Scenario, prop string) *histX {
 		cs.AwaitTO = 45 * time.Minute
 		cs.IdleEnd = 45 * time.Minute
 	}
+	if x.SlowCB == 0 && t.Chance(1, 5) {
+		// the goroutine that hands a message to the backend is slow to start: whatever the
+		// command loop does in the meantime, the backend sees the same order of callbacks
+		sc.YieldPark = Dur(1+t.Intn(20)) * 100 * time.Microsecond
+		sc.YieldPoints = []string{"deliver.start"}
+	}
 	sc.Conns = []ConnScript{cs}
 	sc.Strata = []string{fmt.Sprintf("discipline%d/lmtp%v", x.Discipline, sc.Srv.LMTP)}
 	return x
@@ -675,6 +681,9 @@ func classifyHist(sc *Scenario, h *History, st *Stats) string {
 			}
 		}
 	}
+	if n := deliverParks.Swap(0); n > 0 {
+		st.Probes["delivery_goroutine_slow_to_start"]++
+	}
 	if h.Conns[0].SrvCloseSeq >= 0 && !x.Quit {
 		st.Probes["server_closed_without_quit"]++
 	}
@@ -689,7 +698,7 @@ func init() {
 	histStub := []string{"net.Listener (SimListener)", "net.Conn (SimConn)", "Backend/Session (SimBackend: verdicts derived from addresses and message content, slow returns)", "clock (synctest)", "SMTP client (raw driver)"}
 	register(&Property{
 		ID: "C03", Level: "exploration",
-		Rule:     "command histories of 1-25 commands over a 46-symbol abstract alphabet (valid / backend-rejected / malformed / out-of-order forms of HELO EHLO LHLO MAIL RCPT DATA BDAT RSET NOOP VRFY AUTH STARTTLS QUIT and unknown), three quarters drawn from a state-biased walk and one quarter uniformly; SMTP/LMTP, MaxRecipients 0/2, NewSession failures, slow Data returns so that aborted deliveries overlap what follows; lock-step, single write, or arbitrary segmentation. A reference envelope machine is advanced by the observed replies; backend callbacks are placed between replies by the number of octets the server had written when they began. Non-trivial: >= 3 commands; distinct by (symbol sequence, discipline, mode, limits, backend flavour). Messages the backend refuses early with most of the message or chunk unread (DATA-early, BDAT-early, BDAT-last-early); a stratum with a Data/Mail/Rcpt callback slower than ReadTimeout. The Reset that signals a transaction end must precede the answer to the next command.",
+		Rule:     "command histories of 1-25 commands over a 46-symbol abstract alphabet (valid / backend-rejected / malformed / out-of-order forms of HELO EHLO LHLO MAIL RCPT DATA BDAT RSET NOOP VRFY AUTH STARTTLS QUIT and unknown), three quarters drawn from a state-biased walk and one quarter uniformly; SMTP/LMTP, MaxRecipients 0/2, NewSession failures, slow Data returns so that aborted deliveries overlap what follows; lock-step, single write, or arbitrary segmentation. A reference envelope machine is advanced by the observed replies; backend callbacks are placed between replies by the number of octets the server had written when they began. Non-trivial: >= 3 commands; distinct by (symbol sequence, discipline, mode, limits, backend flavour). Messages the backend refuses early with most of the message or chunk unread (DATA-early, BDAT-early, BDAT-last-early); a stratum with a Data/Mail/Rcpt callback slower than ReadTimeout. The Reset that signals a transaction end must precede the answer to the next command. In a fifth of the histories the delivery goroutines (chunked transfer, LMTP DATA) park at their first statement (yield point deliver.start) for 0.1-2 ms.",
 		Gen:      genC03,
 		Check:    checkC03,
 		Classify: classifyHist,
@@ -706,7 +715,7 @@ func init() {
 		},
 		Real: histReal, Stub: histStub,
 		Assumptions: []string{"a second MAIL inside a transaction and the placement of VRFY/NOOP are not judged", "'signalled by Reset' is judged as: at least one Reset between a transaction end and the next envelope callback, and before the next MAIL/RCPT/DATA/BDAT is answered (other commands may be answered first)"},
-		Required:    []string{"stale_delivery_overlaps_next_transfer", "newsession_failed", "several_messages_in_one_history", "auth_exchange_with_334_inside_history", "backend_callback_slower_than_ReadTimeout", "backend_returns_early_with_message_unread", "chunk_or_message_refused_for_size_inside_history"},
+		Required:    []string{"delivery_goroutine_slow_to_start", "stale_delivery_overlaps_next_transfer", "newsession_failed", "several_messages_in_one_history", "auth_exchange_with_334_inside_history", "backend_callback_slower_than_ReadTimeout", "backend_returns_early_with_message_unread", "chunk_or_message_refused_for_size_inside_history"},
 		QuickRuns:   250000, ThoroughRuns: 6000000,
 	})
 }
